@@ -1262,3 +1262,9 @@ def specialise(prog, f, var, value, operator_calls=False):
         return None
 
     return run(f.body) or ("falloff",)
+
+
+from ..core import guard_rules  # noqa: E402
+
+guard_rules(globals(), extra=("new_group_block", "categoric_rules", "ownership_rule", "eq_compares_fields", "dtype_narrowing",
+                               "one_shot_iterators", "groupby_needs_sorted"))
